@@ -49,6 +49,8 @@ type elasticBulkDec struct {
 	onEntries onEntriesHandler
 
 	labels [][]string
+	// the line before was an index / create action: this line is its document
+	source bool
 }
 
 func (e *elasticBulkDec) Decode() error {
@@ -79,8 +81,11 @@ func (e *elasticBulkDec) decodeLine(line []byte) error {
 	if len(line) == 0 {
 		return nil
 	}
+	// a document may have fields called index, create, update or delete: they are not actions
+	source := e.source
+	e.source = false
 	err := dec.Obj(func(d *jx.Decoder, key string) error {
-		if noContent {
+		if noContent || source {
 			return dec.Skip()
 		}
 		switch key {
@@ -96,6 +101,7 @@ func (e *elasticBulkDec) decodeLine(line []byte) error {
 			return d.Skip()
 		case "index", "create":
 			noContent = true
+			e.source = true
 			return e.decodeCreateObj(d)
 		default:
 			// Handle unexpected keys
